@@ -24,7 +24,7 @@
    them into an alternation (positive) / a sequence (negative) of look-behinds, and the reference
    semantics reads them the same way (Oniguruma's reading). *)
 From FR Require Import Base State Utf8 Utf8Facts Chars Ast Analyze Sem SemSound SemK Det Vm Compile
-                       Machine CompileCorrect RunCorrect EndToEnd.
+                       Machine CompileCorrect RunCorrect EndToEnd Scope ScopeProofs.
 From Coq Require Import NArith Lia.
 
 (* Whatever the stack bound, the backtrack limit and the step budget: the VM reports a match only
@@ -49,6 +49,24 @@ Theorem C01_vm_follows_reference :
   | _ => True
   end.
 Proof. exact vm_agrees_with_reference. Qed.
+
+(* the same with the hypotheses replaced by the executable test the checks run on every generated
+   pattern ([in_scope], Model/Scope.v): the evidence reports how many VM-compiled patterns of a run
+   are inside the theorem *)
+Theorem C01_in_scope :
+  forall cs : list (list nat), valid_chars cs ->
+  forall cx : ctx, c_text cx = concat cs -> (N.of_nat (length (concat cs)) < usize_max)%N ->
+  bnd cs (c_pos cx) ->
+  forall (bs : N -> bool) (e : expr), in_scope bs e = true ->
+  exists p, compile bs (wrap e) = inr p /\
+  forall fuel, length (concat cs) < fuel -> forall max_st lim fuelv,
+  match fst (vm_run cx p max_st lim fuelv) with
+  | RMatch sv => search_list cx e fuel = Some (firstn (2 * S (ngroups e)) sv)
+  | RNoMatch => search_list cx e fuel = None
+  | RPanic => False
+  | _ => True
+  end.
+Proof. exact vm_agrees_in_scope. Qed.
 
 (* the reference the checks evaluate (the first-success continuation-passing [search], which the
    extracted model runs against the real crate) is the reference of the theorem *)
@@ -102,3 +120,4 @@ Proof. eexists; split; vm_compute; reflexivity. Qed.
 Print Assumptions C01_vm_follows_reference.
 Print Assumptions seg_all.
 Print Assumptions C01_reference_forms_agree.
+Print Assumptions C01_in_scope.
